@@ -10,17 +10,22 @@ from engine import Check
 from adapter import SARGS
 
 NARGS = len(SARGS)
-KEYCLS_DEFAULT = [0, 1, 1, 1, 2, 3, 4, 4, 5, 6]
-KEYCLS_CUSTOM = [0, 1, 1, 1, 1, 1, 2, 2, 2, 1]
+KEYCLS_DEFAULT = [0, 1, 1, 1, 2, 3, 4, 4, 5, 6, 7]
+KEYCLS_CUSTOM = [0, 1, 1, 1, 1, 1, 2, 2, 2, 1, 1]
 MAPOF = [0, 0, 0, 1, 2, 2]
 
 
 def ts_ops():
     for c in range(3):
-        for a in (0, 1, 4, 6, 8, 9):
+        for a in (0, 1, 4, 6, 8, 9, 10):
             yield "tsnew C%d A%d" % (c, a)
         yield "tsclear C%d" % c
     yield "tsclear *"
+
+
+# the instance table is private: every script ends by constructing each class once, which shows
+# (same object / new object, __init__ run or not) what the table held
+PROBES = ["tsnew C0 A0", "tsnew C1 A1", "tsnew C2 A0", "tsobs"]
 
 
 def ss_ops(ninst):
@@ -43,7 +48,7 @@ def run_lines(real, lines):
 class C18(Check):
     id = "C18"
     modules = ["EG.Props.C18"]
-    assumptions = ["constructors of the singleton classes do not themselves construct singletons re-entrantly"]
+    assumptions = ["the only re-entrancy exercised is a global clear issued from inside a constructor; constructors do not construct other singletons"]
 
     def batches(self, tier, rng, real):
         ops = list(ts_ops())
@@ -52,12 +57,12 @@ class C18(Check):
             lines = ["reset"]
             for op in combo:
                 lines += [op, "tsobs"]
-            yield run_lines(real, lines)
+            yield run_lines(real, lines + PROBES)
         for _ in range(5000 if tier == "quick" else 30000):
             lines = ["reset"]
             for _ in range(rng.randint(3, 25)):
                 lines += [rng.choice(ops), "tsobs"]
-            yield run_lines(real, lines)
+            yield run_lines(real, lines + PROBES)
 
     def search(self, tier, rng, real, v):
         yield from self.batches("quick", rng, real)
@@ -93,6 +98,8 @@ class C18(Check):
                 for c2, o2 in self.book.items():
                     if o2 == obj:
                         return "%s returned the instance of another class" % line
+                if t[2] == "A10":
+                    self.book = {}         # this __init__ issued a global clear: every other period ends here
                 self.book[c] = obj
                 first = SARGS[int(t[2][1:])]
                 if len(inits) != 1 or (inits[0][1], inits[0][2]) != first:
@@ -114,7 +121,7 @@ class C17(Check):
     modules = ["EG.Props.C17"]
     assumptions = ["argument values are hashable; the key of a construction is the value returned by the metaclass's hash function "
                    "(default: the (args, json(kwargs)) pair itself), compared with ==",
-                   "the instance map is read white-box in `ssobs` for the correspondence only; the oracle uses the public functions"]
+                   "the instance maps are private: model and code are compared through get_all / check_semi_singleton_entry_exists for every class and argument tuple"]
 
     def witnesses(self):
         return [("D13", W.D13)]
